@@ -38,13 +38,15 @@ def theorems(chk: Check):
     def one(a):
         k, (wv, ev, maxn, full) = a
         return chk.tlc("StatsTheorems", THEOREM_CFG.format(wv=wv, ev=ev, maxn=maxn, full=full),
-                       name=f"StatsTheorems-{k}", workers=per, timeout=3000)
+                       name=f"StatsTheorems-{k}", workers=per, timeout=3000, coverage=(k == 1))
     with ThreadPoolExecutor(max_workers=4) as ex:
         res = list(ex.map(one, enumerate(cfgs)))
     for (wv, ev, maxn, full), r in zip(cfgs, res):
         if r.violated:
             raise MachineryError(f"theorem {r.violated_name} about the reference model failed (WV={wv}, EV={ev}, "
                                  f"n<={maxn}); the specification is wrong, nothing is reported about the code")
+        if r.coverage_zero:
+            raise MachineryError(f"StatsTheorems: actions never taken: {r.coverage_zero}")
     chk.note("theorem_series_enumerated", sum(r.states for r in res))
 
 
@@ -119,7 +121,7 @@ def blocking_plan(chk):
 def exhaustive_small(chk):
     """all series over small alphabets (the same sets StatsTheorems enumerates), replayed into the real code"""
     doms = [((1, 2), (0, 1), (4, 5, 6)), ((1, 2, 3), (0, 1, 3), (4,))] if chk.tier == "quick" else \
-           [((1, 2), (0, 1), (4, 5, 6, 7)), ((1, 2, 3), (0, 1, 3), (4, 5)), ((1, 3), (-2, 0, 1), (5, 6))]
+           [((1, 2), (0, 1), (4, 5, 6, 7)), ((1, 2, 3), (0, 1, 3), (4,)), ((1, 3), (-2, 0, 1), (5,))]
     for wv, ev, ns in doms:
         pairs = list(itertools.product(wv, ev))
         for n in ns:
@@ -232,16 +234,19 @@ def run(chk: Check):
                     meta[rid] = {"fn": "outliers", "data": data, "col0": col0, "m": m, "raw": [r for _, r in obs],
                                  "variants": ovars, "gen": style}
     # exhaustive small columns (every column over {0..3}, lengths 4..6)
-    for n in (4, 5, 6) if q else (4, 5, 6, 7):
-        for col in itertools.product((0, 1, 2, 3), repeat=n):
-            data = np.stack([np.arange(n), np.array(col), np.ones(n, dtype=int)]).T
-            for m, mq in ms[:3]:
-                rid += 1
-                obs = st.observe_outliers(data, 1, m, ovars[:1])
-                recs.append({"id": rid, "kind": "outliers", "data": data.tolist(), "col": 2, "m": mq,
-                             "obs": [o for o, _ in obs], "cost": 3})
-                meta[rid] = {"fn": "outliers", "data": data, "col0": 1, "m": m, "raw": [r for _, r in obs],
-                             "variants": ovars[:1], "gen": "exhaustive"}
+    cols = [c for n in (4, 5, 6) for c in itertools.product((0, 1, 2, 3), repeat=n)]
+    if not q:
+        cols += list(itertools.product((0, 1, 5), repeat=7))
+    for col in cols:
+        n = len(col)
+        data = np.stack([np.arange(n), np.array(col), np.ones(n, dtype=int)]).T
+        for m, mq in ms[:3]:
+            rid += 1
+            obs = st.observe_outliers(data, 1, m, ovars[:1])
+            recs.append({"id": rid, "kind": "outliers", "data": data.tolist(), "col": 2, "m": mq,
+                         "obs": [o for o, _ in obs], "cost": 3})
+            meta[rid] = {"fn": "outliers", "data": data, "col0": 1, "m": m, "raw": [r for _, r in obs],
+                         "variants": ovars[:1], "gen": "exhaustive"}
 
     # ---- jackknife
     jrng = np.random.default_rng(1902 + chk.seed)
@@ -272,7 +277,7 @@ def run(chk: Check):
             meta[rid] = {"fn": "jackknife", "num": num, "den": den, "raw": [r for _, r in obs], "variants": jvars,
                          "gen": style}
     if not q:   # exhaustive small jackknife instances
-        for n in (4, 5):
+        for n in (4,):
             for combo in itertools.product(list(itertools.product((1, 2, 3), (-1, 0, 2))), repeat=n):
                 den = np.array([c[0] for c in combo])
                 num = np.array([c[1] for c in combo])
@@ -283,7 +288,10 @@ def run(chk: Check):
                 meta[rid] = {"fn": "jackknife", "num": num, "den": den, "raw": [r for _, r in obs],
                              "variants": jvars[:1], "gen": "exhaustive"}
 
-    verdicts = st.judge(chk, recs, "bind", nchunks=64)
+    verdicts = {}
+    batch = 12000
+    for k in range(0, len(recs), batch):
+        verdicts.update(st.judge(chk, recs[k:k + batch], f"bind{k // batch}", nchunks=64))
     assess(chk, recs, meta, verdicts)
 
 
@@ -397,3 +405,39 @@ def assess(chk: Check, recs, meta, verdicts):
                                "presentation": var, "code": raw, "exact": exact, "verdict": ov})
     chk.note("binding_statistics", stats)
     chk.note("records_judged", {k: sum(1 for r in recs if r["kind"] == k) for k in ("blocking", "outliers", "jackknife")})
+
+
+def replay(chk: Check, case):
+    """re-run one recorded violation (./check C19 --replay replay/C19-k.json) through the real code and the judge"""
+    repo_setup()
+    c = case["case"]
+    fn = c["function"]
+    var = [{"tag": "plain"}, c["presentation"]]
+    if fn == "blocking_analysis":
+        if isinstance(c["weights"], dict):
+            raise MachineryError("series too long to be stored in the replay file; rerun with the recorded seed/tier")
+        w, e = np.array(c["weights"]), np.array(c["energies"])
+        obs = st.observe_blocking(w, e, c["neql"], var)
+        rec = {"id": 1, "kind": "blocking", "w": w.tolist(), "e": e.tolist(), "neql": c["neql"],
+               "sc2": int(max(1, np.abs(e).max() ** 2)), "obs": [o for o, _ in obs]}
+        m = {"fn": "blocking", "w": w, "e": e, "neql": c["neql"], "gen": c.get("generator")}
+    elif fn == "reject_outliers":
+        if isinstance(c["data"], dict):
+            raise MachineryError("data too long to be stored in the replay file; rerun with the recorded seed/tier")
+        data = np.array(c["data"])
+        mq = {1.0: [1, 1], 2.5: [5, 2], 10.0: [10, 1], None: [10, 1]}[c["m"]]
+        obs = st.observe_outliers(data, c["column"], c["m"], var)
+        rec = {"id": 1, "kind": "outliers", "data": data.tolist(), "col": c["column"] + 1, "m": mq,
+               "obs": [o for o, _ in obs]}
+        m = {"fn": "outliers", "data": data, "col0": c["column"], "m": c["m"], "gen": c.get("generator")}
+    else:
+        if isinstance(c["num"], dict):
+            raise MachineryError("series too long to be stored in the replay file; rerun with the recorded seed/tier")
+        num, den = np.array(c["num"]), np.array(c["den"])
+        obs = st.observe_jackknife(num, den, var)
+        rec = {"id": 1, "kind": "jackknife", "num": num.tolist(), "den": den.tolist(),
+               "sc2": int(max(1, np.abs(num).max() ** 2)), "obs": [o for o, _ in obs]}
+        m = {"fn": "jackknife", "num": num, "den": den, "gen": c.get("generator")}
+    m.update({"raw": [r for _, r in obs], "variants": var})
+    verdicts = st.judge(chk, [rec], "replay", nchunks=1)
+    assess(chk, [rec], {1: m}, verdicts)
